@@ -44,12 +44,23 @@ Fixpoint count_times (e : expr) : nat :=
   | _ => 0
   end%nat.
 
+(** the variant of a compile error and its payload (escaped with blanks too, so that it is one
+    field), then the Display text *)
+Definition kind_name (k : errkind) : string :=
+  match k with
+  | UnsupportedTest => "UnsupportedTest" | UnsupportedAction => "UnsupportedAction"
+  | UnsupportedOption => "UnsupportedOption" | UnsupportedFormat => "UnsupportedFormat"
+  end.
+Definition esc_sp (s : str) : str :=
+  flat_map (fun c => if c =? 32 then w "\x20;" else esc_char c) s.
+
 Definition obs_compile (e : expr) (o : options) (clock : N) (mdts : list str) : str :=
   w "clock " ++ print_dec clock ++ sp ++
   match compile e o (repeat clock (count_times e)) with
   | COk c => w "COK " ++ ser_iomap (c_iomap c)
              ++ flat_map (fun mdt => w " | " ++ esc (scheme_text c mdt)) mdts
-  | CErr k n => w "CERR " ++ esc (compile_error_text k n ++ payload_text e)
+  | CErr k n => w "CERR " ++ w (kind_name k) ++ sp ++ esc_sp (chars n ++ payload_text e)
+                ++ sp ++ esc (compile_error_text k n ++ payload_text e)
   | CPanic _ => w "CPANIC"
   end.
 
